@@ -3,7 +3,7 @@
    (GenImp.macro_fns; `quote!` templates are symbolic values). Statements only; see Props/C05T.v for the status of such
    theorems. Values and stubs: Facts/MacroRefine.v. *)
 From Coq Require Import String List Bool.
-Require Import SV.Model.Imp SV.Model.GenImp SV.Facts.ImpFacts SV.Facts.MacroRefine.
+Require Import SV.Model.Imp SV.Model.GenImpMacro SV.Facts.ImpFacts SV.Facts.MacroRefine.
 Import ListNotations.
 Open Scope string_scope.
 Open Scope list_scope.
